@@ -171,6 +171,8 @@ extern void *sim_symbol_addr(const char *name);
 
 /* ------------------------------------------------------------------ verdicts */
 extern void sim_violation(const char *prop, const char *cls, const char *fmt, ...) __attribute__((format(printf, 3, 4), noreturn));
+extern void sim_violation_soft(const char *prop, const char *cls, const char *fmt, ...) __attribute__((format(printf, 3, 4)));
+extern bool sim_has_soft_violation(void);
 extern void sim_finish(const char *status) __attribute__((noreturn));
 extern void sim_note(const char *fmt, ...) __attribute__((format(printf, 1, 2)));
 extern void probe_hit(const char *name);
